@@ -73,6 +73,41 @@ def run_contigs(B, t, n):
         return ['error', '%s: %s' % (type(e).__name__, e)]
 
 
+def write_bed(path, bed, gz):
+    txt = ''.join('%s\t%d\t%d\n' % (c, s, e) for c, s, e in bed)
+    if gz:
+        import gzip
+        with gzip.open(path, 'wt') as f:
+            f.write(txt)
+    else:
+        with open(path, 'w') as f:
+            f.write(txt)
+
+
+def run_history(B, steps, n):
+    """several blacklisted_binning_contigs calls in ONE process with contig_length_resource = a BAM path; the
+    BAM (header only) and the BED file of a slot are rewritten at the same path before each call, so every call
+    must reflect the files as they are at that moment"""
+    import pysam
+    out = []
+    for st in steps:
+        try:
+            bam = os.path.join(os.environ['SCMO_SCRATCH'], 'h%d_slot%d.bam' % (n, st['bam_slot']))
+            header = {'HD': {'VN': '1.6', 'SO': 'coordinate'}, 'SQ': [{'SN': c, 'LN': ln} for c, ln in st['contigs']]}
+            with pysam.AlignmentFile(bam, 'wb', header=header):
+                pass
+            path = None
+            if st['bed'] is not None:
+                path = os.path.join(os.environ['SCMO_SCRATCH'], 'h%d_bed%d.bed%s' % (n, st['bed_slot'], '.gz' if st.get('gz') else ''))
+                write_bed(path, st['bed'], st.get('gz'))
+            res = B.blacklisted_binning_contigs(bam, st['bin_size'], st['fragment_size'], blacklist_path=path,
+                                                contig_whitelist=st['whitelist'])
+            out.append([list(x) for x in res])
+        except BaseException as e:
+            out.append(['error', '%s: %s' % (type(e).__name__, e)])
+    return out
+
+
 def handler(p):
     old = sys.stdout
     sys.stdout = open(os.devnull, 'w')
@@ -82,10 +117,11 @@ def handler(p):
         from singlecellmultiomics.utils import bp_chunked as bp_chunked2   # the name bamtagmultiome_multi imports
         out = [run_case(B, bp_chunked, c) for c in p.get('cases', [])]
         cont = [run_contigs(B, t, n) for n, t in enumerate(p.get('contigs', []))]
+        hist = [run_history(B, h, n) for n, h in enumerate(p.get('histories', []))]
         same = bp_chunked2 is bp_chunked
     finally:
         sys.stdout = old
-    return {'out': out, 'contigs': cont, 'bp_chunked_same_object': same}
+    return {'out': out, 'contigs': cont, 'histories': hist, 'bp_chunked_same_object': same}
 
 
 if __name__ == '__main__':
